@@ -165,7 +165,7 @@ func (g *gen) body(depth int, scope []iterInfo, used map[string]bool, inUnknown 
 			typ := g.r.Pick(typeNames[:2+g.r.Intn(len(typeNames)-1)])
 			nl, ok := labCount[typ]
 			if !ok || g.irregular && g.r.Chance(1, 3) {
-				nl = []int{0, 0, 1, 1, 2, 3}[g.r.Intn(6)]
+				nl = []int{0, 0, 1, 1, 2, 3, 4, 4, 5}[g.r.Intn(9)]
 				if !ok {
 					labCount[typ] = nl
 				}
@@ -180,6 +180,14 @@ func (g *gen) body(depth int, scope []iterInfo, used map[string]bool, inUnknown 
 			}
 			blk.body = g.body(depth+1, scope, nil, inUnknown)
 			b.items = append(b.items, aItem{b: blk})
+			if nl >= 2 && g.r.Chance(1, 3) {
+				// siblings that share all labels but the last (one nested object per label level in JSON)
+				for k := 1 + g.r.Intn(2); k > 0; k-- {
+					sib := &aBlock{typ: typ, labels: append(append([]string{}, blk.labels[:nl-1]...), g.r.Pick(labelAlphabet))}
+					sib.body = g.body(depth+1, scope, nil, inUnknown)
+					b.items = append(b.items, aItem{b: sib})
+				}
+			}
 		default:
 			name := g.r.Pick(attrNames)
 			if used[name] {
